@@ -326,6 +326,15 @@ func (k Keeper) CloseFixedPriceAuction(ctx context.Context, auction types.Auctio
 	return nil
 }
 
+// setMatchedPrice publishes the clearing price used for the settlement on the auction
+// (zero when nothing is sold); the auction is stored by ApplyVestingSchedules afterwards.
+func setMatchedPrice(ba *types.BatchAuction, mInfo MatchingInfo) {
+	ba.MatchedPrice = math.LegacyZeroDec()
+	if !mInfo.MatchedPrice.IsNil() {
+		ba.MatchedPrice = mInfo.MatchedPrice
+	}
+}
+
 // CloseBatchAuction closes a batch auction.
 func (k Keeper) CloseBatchAuction(ctx context.Context, auction types.AuctionI) error {
 	ba, ok := auction.(*types.BatchAuction)
@@ -346,6 +355,8 @@ func (k Keeper) CloseBatchAuction(ctx context.Context, auction types.AuctionI) e
 	// Close the auction when maximum extended round + 1 is the same as the length of end times
 	// If the value of MaxExtendedRound is 0, it means that an auctioneer does not want have an extended round
 	if ba.MaxExtendedRound+1 == uint32(len(auction.GetEndTimes())) {
+		setMatchedPrice(ba, mInfo)
+
 		if err := k.AllocateSellingCoin(ctx, auction, mInfo); err != nil {
 			return err
 		}
@@ -379,6 +390,8 @@ func (k Keeper) CloseBatchAuction(ctx context.Context, auction types.AuctionI) e
 	if diff.GTE(ba.ExtendedRoundRate) {
 		return k.ExtendRound(ctx, ba)
 	}
+
+	setMatchedPrice(ba, mInfo)
 
 	if err := k.AllocateSellingCoin(ctx, auction, mInfo); err != nil {
 		return err
